@@ -15,8 +15,14 @@ package ice
 //@   ensures fresh-waiting-pair: result != nil && fresh(result) && result.Local == local && result.Remote == remote && result.iceRoleControlling == controlling && result.state == CandidatePairStateWaiting
 //@   ensures zeroed: result.id == 0 && !result.nominated && !result.nominateOnBindingSuccess && !result.hasPriorityOverride && result.bindingRequestCount == 0
 
+// The pair index: every listed pair is a distinct object whose id was handed out
+// already and leads back to it through pairsByID (hence ids are unique).
+//@ spec macro pairsIndexed(a *Agent) = (forall i int :: 0 <= i && i < len(a.checklist) ==> a.checklist[i] != nil && a.checklist[i].id >= 1 && a.checklist[i].id <= a.nextPairID && has(a.pairsByID, a.checklist[i].id) && a.pairsByID[a.checklist[i].id] == a.checklist[i])
+
 //@ func (*Agent).addPair
 //@   props C06
+//@   ensures C06 index-invariant-preserved: old(pairsIndexed(a)) ==> pairsIndexed(a)
+//@   ensures C06 new-id-is-unused: old(pairsIndexed(a)) ==> forall i int :: 0 <= i && i < len(a.checklist) - 1 ==> a.checklist[i].id != result.id
 //@   requires C06 id-space-not-exhausted: a.nextPairID < 18446744073709551615
 //@   requires a.pairsByID != nil
 //@   modifies a.nextPairID, a.checklist, a.pairsByID[*], fam:E_*ice.CandidatePair
